@@ -226,6 +226,17 @@ fn read_workload(cf: &mut Cf) -> u64 {
     calls
 }
 
+/// After a handle call (successful or refused) the handle must stay usable: position, a relative seek by
+/// nothing, the length and a small read return Ok or Err (C11: no panic, no hang in ANY later call).
+fn probe<F: Read + Seek>(s: &mut cfb::Stream<F>) {
+    let _ = s.stream_position();
+    let _ = s.seek(SeekFrom::Current(0));
+    let _ = s.len();
+    let mut b = [0u8; 8];
+    let _ = s.read(&mut b);
+    let _ = s.stream_position();
+}
+
 fn first_stream(cf: &Cf) -> Option<std::path::PathBuf> {
     cf.walk().take(2000).find(|e| e.is_stream()).map(|e| e.path().to_path_buf())
 }
@@ -240,12 +251,14 @@ fn mutate(cf: &mut Cf, step: &str) {
             if let Ok(mut s) = cf.create_stream("/zz_new") {
                 let _ = s.write_all(&[7u8; 1]);
                 let _ = s.flush();
+                    probe(&mut s);
             }
         }
         "create_large" => {
             if let Ok(mut s) = cf.create_stream("/zz_big") {
                 let _ = s.write_all(&[9u8; 5000]);
                 let _ = s.flush();
+                    probe(&mut s);
             }
         }
         "append" => {
@@ -254,6 +267,7 @@ fn mutate(cf: &mut Cf, step: &str) {
                     let _ = s.seek(SeekFrom::End(0));
                     let _ = s.write_all(&[5u8; 100]);
                     let _ = s.flush();
+                    probe(&mut s);
                 }
             }
         }
@@ -263,6 +277,7 @@ fn mutate(cf: &mut Cf, step: &str) {
                     let _ = s.seek(SeekFrom::End(0));
                     let _ = s.write_all(&[6u8; 4200]);
                     let _ = s.flush();
+                    probe(&mut s);
                 }
             }
         }
@@ -271,6 +286,7 @@ fn mutate(cf: &mut Cf, step: &str) {
                 if let Ok(mut s) = cf.open_stream(&p) {
                     let _ = s.write_all(&[4u8; 70]);
                     let _ = s.flush();
+                    probe(&mut s);
                 }
             }
         }
@@ -314,16 +330,19 @@ fn mutate(cf: &mut Cf, step: &str) {
                     let _ = s.set_len(0);
                     let _ = s.write_all(&[0x31u8; 10]);
                     let _ = s.flush();
+                    probe(&mut s);
                     let _ = s.set_len((n / 2).min(20_000) + 5000);
                     let _ = s.seek(SeekFrom::End(0));
                     let _ = s.write_all(&[0x32u8; 700]);
                     let _ = s.flush();
+                    probe(&mut s);
                     let _ = s.set_len(100);
                     let _ = s.seek(SeekFrom::Start(0));
                     let mut b = [0u8; 64];
                     let _ = s.read(&mut b);
                     let _ = s.write_all(&[0x33u8; 4200]);
                     let _ = s.flush();
+                    probe(&mut s);
                 }
             }
         }
